@@ -1,0 +1,41 @@
+//go:build verif
+
+package standard
+
+import (
+	"sort"
+	"time"
+)
+
+// VerifSession describes one entry of the generation table (verification builds only).
+type VerifSession struct {
+	Account      string
+	Started      time.Time
+	Threshold    uint32
+	Participants []uint64
+	Contributed  []uint64 // identifiers whose share is held, sorted
+	VVecLens     map[uint64]int
+}
+
+// VerifSessions returns the generation table as it is, without expiring anything.
+func (s *Service) VerifSessions() []VerifSession {
+	s.generationsMu.RLock()
+	defer s.generationsMu.RUnlock()
+	res := make([]VerifSession, 0, len(s.generations))
+	for name, g := range s.generations {
+		v := VerifSession{Account: name, Started: g.processStarted, Threshold: g.threshold, VVecLens: map[uint64]int{}}
+		for _, p := range g.participants {
+			v.Participants = append(v.Participants, p.ID)
+		}
+		for id := range g.sharedSecrets {
+			v.Contributed = append(v.Contributed, id)
+		}
+		sort.Slice(v.Contributed, func(i, j int) bool { return v.Contributed[i] < v.Contributed[j] })
+		for id, vv := range g.sharedVVecs {
+			v.VVecLens[id] = len(vv)
+		}
+		res = append(res, v)
+	}
+	sort.Slice(res, func(i, j int) bool { return res[i].Account < res[j].Account })
+	return res
+}
